@@ -996,6 +996,11 @@ func accessibleFrom(info *types.Info, node ast.Node, wantPkg string) error {
 			return true
 		}
 		obj := info.ObjectOf(ident)
+		if obj == nil {
+			// The blank identifier and the symbolic variable of a type switch
+			// have no object; they cannot refer to anything inaccessible.
+			return true
+		}
 		if _, ok := obj.(*types.PkgName); ok {
 			// Local package names are fine, since we can just reimport them.
 			return true
